@@ -59,6 +59,7 @@ fn dispatch(toks: &[&str]) -> String {
         "cross" => cross::cross(toks),
         "fsh" => fsrun::run(toks),
         "fsckfile" => fsckrun::fsck_file(toks),
+        "pdtree" => fsckrun::pdtree(toks),
         _ => format!("unsupported:{}",toks[0])
     }
 }
